@@ -374,6 +374,19 @@ func (h *Hist) scan(faults map[int]bool, failDesc map[string]bool) (string, erro
 	for i, p := range h.podL.pods {
 		snapPods[i] = p.DeepCopy()
 	}
+	// instances terminated in earlier scans leave the cloud group's listing one by one
+	if !h.scripted {
+		h.aws.linger = true
+		for _, g := range h.aws.asgs {
+			var still []SimInst
+			for _, in := range g.Leaving {
+				if h.r.chance(50) {
+					still = append(still, in)
+				}
+			}
+			g.Leaving = still
+		}
+	}
 	// what the cloud really holds when the scan starts ("the group's current desired size", its bounds and members)
 	cloud := []PAsg{}
 	{
